@@ -240,7 +240,9 @@ def main(argv=None):
 
     def extra(results):
         return {"histories": sum(r.get("programs", 0) for r in results if r),
-                "ended_in_InvalidBackprop": sum(r.get("invalid_backprop", 0) for r in results if r)}
+                "ended_in_InvalidBackprop": sum(r.get("invalid_backprop", 0) for r in results if r),
+                "a_history_statement_raised_loudly_no_claim": sum(r.get("history_statement_raised", 0) for r in results if r),
+                "examples_of_those": [e for r in results if r for e in r.get("history_statement_raised_examples", [])][:3]}
 
     describe = dict(
         level="other",
